@@ -170,7 +170,7 @@ def run(ctx):
                 check_matrix(ctx, "dtw.warping_paths" + ("_fast" if eng == "c" else ""), eng, s1, s2, kw, m, pr,
                              keep, wp, inn.ival)
 
-    N = 500 if ctx.quick else 9000
+    N = ctx.scale(3500, 40000)
     for it in range(N):
         r, c = rng.randint(1, 12), rng.randint(1, 12)
         x = rng.random()
@@ -197,7 +197,7 @@ def run(ctx):
         ctx.count("base_cases")
         run_case(s1, s2, kw, nd)
     # distance matrices with bounds, both engines, vs without
-    M = 25 if ctx.quick else 400
+    M = ctx.scale(200, 2500)
     for _ in range(M):
         k = rng.randint(2, 5)
         equal = rng.random() < 0.6
